@@ -216,7 +216,8 @@ func genC04() error {
 					} else {
 						switch {
 						case b.Kind() == types.Bool:
-							vstep("1", "x."+f.Name()+" = true")
+							// both values: the parser's default for an absent field need not be false
+							vstep("2", "x."+f.Name()+" = k == 0")
 						case b.Kind() == types.String:
 							vstep("1", "x."+f.Name()+" = \"v\"")
 						case b.Info()&types.IsInteger != 0:
